@@ -128,6 +128,32 @@ def run(facts, R):
                 "reader token %s vs guard token %s: the token the handlers poll is not the one the disconnect guard cancels on every exit (return, unwind, task drop)"
                 % (render_n(cd["conn_token"]), gtok), st.get("span"), render_n(cd["conn_token"]))
 
+    # ---------------- reader-raced-with-cancel: the whole reader future is one arm of a select! whose other arm is the
+    # connection token's cancelled(): cancellation ends the connection in every phase of the reader (parked on the
+    # outbound queue, inside an inline handler, between frames), not only where the reader chooses to look at the token
+    raced = False
+    direct = False
+    tok = None
+    for i, t in hc.calls():
+        if t["callee"]["name"] == "poll_fn":
+            for x in walk(s.op(t["args"][0])):
+                if x[0] == "agg" and x[1] == "tuple":
+                    els = [v for _, v in x[3]]
+                    if any(is_call(v, "reader_task") for v in els):
+                        for v in els:
+                            if is_call(v, "cancelled") and "CancellationToken" in v[1]:
+                                raced = True
+                                tok = render_n(v[2][0])
+        if "reader_task::{closure#0}" in t["callee"]["path"]:
+            direct = True
+    conn_tok = None
+    for i, j, st in conn:
+        conn_tok = render_n(dict(s.rvalue(st["rv"])[3]).get("conn_token", ("?",)))
+    R.check(raced and not direct and tok is not None and tok == conn_tok, "reader-raced-with-cancel", hc.path, "reader_task is raced against conn_token.cancelled()",
+            "the reader future is %s: a cancelled connection whose reader is parked (full outbound queue, long inline handler) is not torn down, so the disconnect "
+            "hooks and the registry removal never run" % ("awaited directly" if direct else "not an arm of a select! with the connection token's cancelled() (token %s vs %s)" % (tok, conn_tok)),
+            hc.span, "select!{ reader_task(..), conn_token.cancelled() }")
+
     # ---------------- registry-pairing / hooks-before-reader -------------------------------------------------------
     hooks = [(i, t) for i, t in hc.calls() if t["callee"]["name"] == "call" and "on_connect" in render(s.op(t["args"][0]))]
     R.floor("hooks-before-reader", len(hooks), 2, "connect-hook call sites")
